@@ -56,6 +56,16 @@ func (m *Master) RacePass(what string) {
 		payload := []byte(fmt.Sprintf(`{"kind":"racepass","what":%q}`, what))
 		m.AddViolation(Violation{Sig: m.Prop.ID + "/free-running/error-lost", Desc: fmt.Sprintf("free-running pass %q: in %d runs a failure of the producer was not visible to the consumer", what, n), Replay: payload, Precise: true})
 	}
+	for _, mk := range []struct{ marker, sig, what string }{
+		{"RACEPASS-RESULT-DIFFERS", "result-differs-from-sequential", "work done by concurrent goroutines on objects of their own gave other values than the same work done alone"},
+		{"RACEPASS-PANIC", "panic-in-concurrent-use", "work done by concurrent goroutines on objects of their own panicked"},
+	} {
+		if n := strings.Count(s, mk.marker); n > 0 {
+			m.Tot.Extra["racepass_"+mk.sig] = int64(n)
+			payload := []byte(fmt.Sprintf(`{"kind":"racepass","what":%q}`, what))
+			m.AddViolation(Violation{Sig: m.Prop.ID + "/free-running/" + mk.sig, Desc: fmt.Sprintf("free-running pass %q: %d times %s", what, n, mk.what), Replay: payload, Precise: true})
+		}
+	}
 	seen := map[string]bool{}
 	for _, r := range reports[1:] {
 		fr := raceFrame.FindAllStringSubmatch(r, -1)
